@@ -1,7 +1,8 @@
 /-
   Driver/Ivjoin.lean — interval-join cases (C08, interval clause).
   header: `<id> ivjoin <lower> <upper>`; ops: `e <elem>` with `T:(k,L<v>):ts` / `T:(k,R<v>):ts` / `W:ts` / `FB` /
-  `FAR` / `I:(k,L<v>)` (malformed); the scripted source yields `Terminate` after the last op.
+  `FAR` / `I:(k,L<v>)` (malformed); the scripted source yields `Terminate` after the last op. `lower`, `upper`
+  and the timestamps are arbitrary `i64`s.
   outputs: every element returned by `next()` until `Terminate` (inclusive), in order (the operator never
   iterates a hash map, so the order is fully specified); a panic replaces the output by `panic:<class>`.
 -/
@@ -42,19 +43,52 @@ def runModel (lb ub : Int) (es : List (Elem (Int × (Val ⊕ Val)))) : Except St
 
 def sortStrs (l : List String) : List String := l.mergeSort (fun a b => decide (a ≤ b))
 
-/-- spec side: per complete iteration, the interval pairs computed by a direct nested loop -/
-def specIters (lb ub : Int) (es : List (Elem (Int × (Val ⊕ Val)))) : List (List String) × List String :=
+/-! Spec side. Deliberately independent of the model: it uses neither `lowerOf`/`upperOf`/`clamp` nor
+    `panics` of `Model/IntervalJoin.lean` (an earlier version did, and therefore could see neither the
+    wrong-way saturation of `checked_sub(..).unwrap_or(MIN)` nor the `last_seen = 0` panic on negative
+    timestamps). The bounds are the TRUE integer values `l.ts - lower`, `l.ts + upper`, brought into the
+    `i64` range by `max`/`min` — the meaning of the property for a timestamp type that ends at `i64::MAX`. -/
+
+def I64_MIN : Int := -(2 ^ 63)
+def I64_MAX : Int := 2 ^ 63 - 1
+
+/-- the interval of a left element at `lt`, true integer arithmetic, then cut to the i64 range -/
+def interval (lb ub lt : Int) : Int × Int :=
+  (max I64_MIN (min I64_MAX (lt - lb)), max I64_MIN (min I64_MAX (lt + ub)))
+
+/-- Domain of the property, decided on the INPUT only: timestamped elements and watermarks (no `Item`),
+    timestamps non-decreasing within an iteration (what the upstream `Reorder` guarantees). Any `i64`
+    timestamp is in the domain, negative ones included. -/
+def inDomain (es : List (Elem (Int × (Val ⊕ Val)))) : Bool :=
+  let rec go (es : List (Elem (Int × (Val ⊕ Val)))) (last : Option Int) : Bool :=
+    let ok (t : Int) : Bool := (match last with | some l => decide (l ≤ t) | none => true)
+      && decide (I64_MIN ≤ t) && decide (t ≤ I64_MAX)
+    match es with
+    | [] => true
+    | .item _ :: _ => false
+    | .ts _ t :: rest => ok t && go rest (some t)
+    | .wm t :: rest => ok t && go rest (some t)
+    | .far :: rest => go rest none
+    | _ :: rest => go rest last
+  go es none
+
+/-- the pairs of one iteration by a direct nested loop over ALL left and right elements -/
+def pairsOf (lb ub : Int) (L R : List (Int × Int × Val)) (cut : Bool) : List String :=
+  sortStrs (L.flatMap fun (lt, lk, lv) =>
+    let (lo, hi) := if cut then interval lb ub lt else (lt - lb, lt + ub)
+    (R.filter fun (rt, rk, _) => rk == lk && decide (lo ≤ rt) && decide (rt ≤ hi)).map
+      fun (rt, _, rv) => elemToStr (.ts (.tup [.int lk, .tup [lv, rv]]) (max lt rt)))
+
+/-- spec side: per complete iteration, the interval pairs; `cut = false`: no cut to the i64 range at all
+    (only used for the distribution tag `zdiff`) -/
+def specIters (lb ub : Int) (cut : Bool) (es : List (Elem (Int × (Val ⊕ Val)))) : List (List String) × List String :=
   let rec go (es : List (Elem (Int × (Val ⊕ Val)))) (L : List (Int × Int × Val)) (R : List (Int × Int × Val))
       (acc : List (List String)) : List (List String) × List String :=
-    let pairsOf (L R : List (Int × Int × Val)) : List String :=
-      sortStrs (L.flatMap fun (lt, lk, lv) =>
-        (R.filter fun (rt, rk, _) => rk == lk && decide (lowerOf lt lb ≤ rt) && decide (rt ≤ upperOf lt ub)).map
-          fun (rt, _, rv) => elemToStr (.ts (.tup [.int lk, .tup [lv, rv]]) (max lt rt)))
     match es with
-    | [] => (acc.reverse, pairsOf L R)
+    | [] => (acc.reverse, pairsOf lb ub L R cut)
     | .ts (k, .inl v) t :: rest => go rest (L ++ [(t, k, v)]) R acc
     | .ts (k, .inr v) t :: rest => go rest L (R ++ [(t, k, v)]) acc
-    | .far :: rest => go rest [] [] (pairsOf L R :: acc)
+    | .far :: rest => go rest [] [] (pairsOf lb ub L R cut :: acc)
     | _ :: rest => go rest L R acc
   go es [] [] []
 
@@ -89,20 +123,28 @@ def handle (c : Case) : Verdict :=
         | _ => none
       let res := runModel lb ub es
       let out := match res with | .ok l => l | .error cls => [s!"panic:{cls}"]
-      let inDomain := match res with | .ok _ => true | .error _ => false
-      let (specs, specTail) := specIters lb ub es
+      let dom := inDomain es
+      let (specs, specTail) := specIters lb ub true es
       let oracle : Option String :=
-        if !inDomain then none   -- unsorted / untimestamped input: outside the property's domain
+        if !dom then none   -- unsorted / untimestamped input: outside the property's domain
         else match implIters c.implOut with
-          | none => some s!"malformed implementation output: {c.implOut}"
+          | none => some s!"no well-formed output on an in-domain input (panic?): {c.implOut}"
           | some (impl, tail) =>
             if impl != specs then some s!"interval join differs: impl={impl} spec={specs}"
             else if !subMultiset tail specTail then some s!"pairs outside the interval join after the last FAR: {tail}"
             else none
       let nPairs := specs.foldl (fun n l => n + l.length) 0
-      { out, oracle, nontrivial := inDomain && nPairs > 0,
-        tags := [s!"iters{min specs.length 3}", if inDomain then "valid" else "panic",
-                 s!"pairs{min nPairs 3}"] }
+      let stampsOf := es.filterMap Elem.timestamp
+      let big : Int := 4611686018427387904   -- 2^62
+      { out, oracle, nontrivial := dom && nPairs > 0,
+        tags := [s!"iters{min specs.length 3}", if dom then "valid" else "outside",
+                 s!"pairs{min nPairs 3}",
+                 if lb < 0 then "lb-" else if lb = 0 then "lb0" else "lb+",
+                 if ub < 0 then "ub-" else if ub = 0 then "ub0" else "ub+",
+                 if lb.natAbs ≥ big.natAbs || ub.natAbs ≥ big.natAbs then "hugebound" else "smallbound",
+                 if stampsOf.any (· < 0) then "negts" else "nonnegts",
+                 if stampsOf.any (fun t => t.natAbs ≥ big.natAbs) then "hugets" else "smallts",
+                 if dom && specIters lb ub false es != (specs, specTail) then "zdiff" else "zsame"] }
     | _, _ => bad "bad header"
   | _ => bad "bad header"
 
